@@ -236,19 +236,30 @@ Qed.
 (* ---------------------------------------------------------------- (6) generic impl blocks: the run-time type context *)
 
 (* Stack discipline of the method-call path (call_impl.cpp: push_type_context(impl_def->get_type_context()) before the
-   body, pop_type_context on every exit that is not an error).  For EVERY program of impl blocks, every stack the call
+   body, the TypeContextGuard pops on every exit - repair 70336ad).  For EVERY program of impl blocks, every stack the call
    starts from, every registry of instances, every body and every depth of nesting (fuel): what the body observes
    under the stack equals what it observes when each method body is given, once and for all, the context of the
    instance it belongs to (run_mono: a callee of another instantiation of the SAME block gets its own map, not the
-   caller's); the registry and the outcome agree; and when the body ends without an error the stack is exactly the
-   stack it started from - so the caller's parameters are bound again after any callee, any early return. *)
+   caller's); the registry and the outcome agree; and the stack is exactly the stack it started from after ANY
+   outcome - normal end, early return, run-time error (caught by a `try` of some caller or not), exhausted fuel. *)
 Theorem impl_context_stack_discipline : forall fuel P st ic env n b,
   r_out (run fuel P st ic env n b) = q_out (run_mono fuel P (get_current_type_context st) ic env n b) /\
   r_cache (run fuel P st ic env n b) = q_cache (run_mono fuel P (get_current_type_context st) ic env n b) /\
   r_flag (run fuel P st ic env n b) = q_flag (run_mono fuel P (get_current_type_context st) ic env n b) /\
-  (flag_err (r_flag (run fuel P st ic env n b)) = false -> r_stack (run fuel P st ic env n b) = st).
+  r_stack (run fuel P st ic env n b) = st.
 Proof. exact run_refines_mono_l. Qed.
 Print Assumptions impl_context_stack_discipline.
+
+(* replaces error_leaves_context_refuted (finding C11-try-leaks-type-context, repaired by 70336ad) *)
+Theorem impl_context_restored_after_any_outcome : forall fuel P st ic env n b,
+  r_stack (run fuel P st ic env n b) = st.
+Proof. exact stack_restored_l. Qed.
+Print Assumptions impl_context_restored_after_any_outcome.
+
+Theorem try_restores_context : forall fuel P st ic env n v m ty,
+  resolve_type_in_context (stack_after_try fuel P st ic env n v m) ty = resolve_type_in_context st ty.
+Proof. exact try_restores_context_l. Qed.
+Print Assumptions try_restores_context.
 
 (* the context pushed for a method call is the type map of the instance of the RECEIVER's struct type name,
    as an empty registry would build it - in every registry reachable by running programs *)
@@ -264,26 +275,29 @@ Proof. exact run_calls_cache_ok. Qed.
 Print Assumptions impl_registry_reachable_ok.
 
 (* instances of impl blocks are independent and the n-th use is like the first: after ANY sequence of calls from
-   main (any nesting inside, any order of instantiations) a struct type name gets the instance it gets from an
-   empty registry *)
+   main (any nesting inside, any order of instantiations, failing calls included) a struct type name gets the
+   instance it gets from an empty registry *)
 Theorem impl_instances_independent : forall fuel P calls name,
   let ic := match rev (run_calls fuel P [] calls) with [] => [] | x :: _ => r_cache x end in
   snd (find_impl_for_struct P ic name) = snd (find_impl_for_struct P [] name).
 Proof. exact registry_transparent_l. Qed.
 Print Assumptions impl_instances_independent.
 
-(* the instance of Base<a1, ..., ak> (identifier-like arguments): the first generic impl of Base with k parameters,
-   parameter i bound to ai *)
-Theorem impl_type_args_flat : forall b a, ident b -> a <> [] -> Forall ident a ->
-  impl_type_args (show_f (FApp b a)) = Some (b, a).
-Proof. exact impl_type_args_flat_l. Qed.
-Print Assumptions impl_type_args_flat.
+(* replaces impl_type_args_nested_refuted (finding C11-impl-tuple-type-argument, repaired by d6bac56) and the flat
+   special case: for EVERY well-formed type expression Base<t1, ..., tk> - arguments of any nesting depth and arity,
+   Cell<Duo<int, Box<long>>> included - find_impl_for_struct cuts out exactly the spellings of t1 ... tk *)
+Theorem impl_type_args_nested : forall b args, wf (TApp b args) ->
+  impl_type_args (show (TApp b args)) = Some (b, map show args).
+Proof. exact impl_type_args_nested_l. Qed.
+Print Assumptions impl_type_args_nested.
 
-Theorem impl_instance_binds_parameters : forall P b a k blk, ident b -> a <> [] -> Forall ident a ->
-  find_generic P b (List.length a) = Some (k, blk) ->
-  fresh_inst P (show_f (FApp b a)) =
-  Some {| i_block := k; i_map := build_map (b_params blk) a; i_generic := negb (strs_eqb a (b_params blk)) |}.
-Proof. exact fresh_inst_flat_l. Qed.
+(* ... and the instance is the first generic impl of Base with k parameters, parameter i bound to the spelling of ti *)
+Theorem impl_instance_binds_parameters : forall P b args k blk, wf (TApp b args) ->
+  find_generic P b (List.length args) = Some (k, blk) ->
+  fresh_inst P (show (TApp b args)) =
+  Some {| i_block := k; i_map := build_map (b_params blk) (map show args);
+          i_generic := negb (strs_eqb (map show args) (b_params blk)) |}.
+Proof. exact fresh_inst_nested_l. Qed.
 Print Assumptions impl_instance_binds_parameters.
 
 (* TypeContext::resolve_complex_type on the spelling of a flat type expression (T, Base<A, B>, T*, T[3]) is
@@ -293,28 +307,12 @@ Theorem resolve_flat_is_structural : forall c t, values_nonempty c -> wf_f t ->
 Proof. exact resolve_flat_is_structural_l. Qed.
 Print Assumptions resolve_flat_is_structural.
 
-(* ... and not beyond: a nested generic argument keeps its parameter *)
+(* ... and not beyond (ast.h is unchanged): a nested generic argument keeps its parameter *)
 Theorem resolve_nested_refuted :
   resolve_complex_type w_ctx_int (S "Box<Cell<T>>") = S "Box<Cell<T>>" /\
   resolve_complex_type w_ctx_int (S "Box<Cell<T>>") <> S "Box<Cell<int>>".
 Proof. exact resolve_nested_refuted_l. Qed.
 Print Assumptions resolve_nested_refuted.
-
-(* known finding C11-impl-tuple-type-argument *)
-Theorem impl_type_args_nested_refuted :
-  impl_type_args (S "Cell<Duo<int, long>>") = Some (S "Cell", [S "Duo<int"; S "long>"]) /\
-  fresh_inst [w_cell] (S "Cell<Duo<int, long>>") = None /\
-  fresh_inst [w_cell] (S "Cell<Box<long>>") = Some {| i_block := 0; i_map := [(w_T, S "Box<long>")]; i_generic := true |}.
-Proof. exact impl_type_args_nested_refuted_l. Qed.
-Print Assumptions impl_type_args_nested_refuted.
-
-(* known finding C11-try-leaks-type-context: the `flag_err = false` premise of the stack discipline is needed *)
-Theorem error_leaves_context_refuted :
-  let st := [w_ctx_int] in
-  let st' := stack_after_try 5 [w_cell2] st [] [(S "o", S "Cell<long>")] 1 (S "o") (S "fail") in
-  st' <> st /\ resolve_type_in_context st w_T = S "int" /\ resolve_type_in_context st' w_T = S "long".
-Proof. exact error_leaves_context_refuted_l. Qed.
-Print Assumptions error_leaves_context_refuted.
 
 (* known finding C11-impl-local-struct-of-T *)
 Theorem local_of_parameter_type_refuted :
@@ -322,6 +320,18 @@ Theorem local_of_parameter_type_refuted :
   r_out (run_main 20 [w_cell4; w_box] [] (S "Cell<short>") (S "loc") 3) <> [S "short"].
 Proof. exact local_of_parameter_type_refuted_l. Qed.
 Print Assumptions local_of_parameter_type_refuted.
+
+Example tuple_type_argument_example :
+  impl_type_args (S "Cell<Duo<int, long>>") = Some (S "Cell", [S "Duo<int, long>"]) /\
+  fresh_inst [w_cell] (S "Cell<Duo<int, long>>") =
+    Some {| i_block := 0; i_map := [(w_T, S "Duo<int, long>")]; i_generic := true |} /\
+  fresh_inst [w_cell] (S "Cell<Box<long>>") = Some {| i_block := 0; i_map := [(w_T, S "Box<long>")]; i_generic := true |}.
+Proof. exact tuple_type_argument_example_l. Qed.
+
+Example try_example :
+  r_out (run_main 20 [w_cell2] [] (S "Cell<int>") (S "tr") 3) = [S "int"; S "long"; S "int"] /\
+  r_flag (run_main 20 [w_cell2] [] (S "Cell<int>") (S "tr") 3) = FNorm.
+Proof. exact try_example_l. Qed.
 
 Example cross_instantiation_example :
   r_out (run_main 20 [w_cell3] [] (S "Cell<int>") (S "cross") 3) = [S "int"; S "long"; S "int"; S "int"] /\
